@@ -47,6 +47,7 @@ def _plan(tier, seed):
     n = 40000 if tier == "quick" else 1600000
     per = n // NPARTS
     specs += [{"kind": "random", "start": p * per, "count": per} for p in range(NPARTS)]
+    specs += [{"kind": "huge", "start": 5 * p, "count": 5} for p in range(1 if tier == "quick" else 8)]
     specs.append({"kind": "suite"})
     return specs
 
@@ -139,7 +140,20 @@ def run_exhaustive(ctx, sau, spec):
                 idx += 1
 
 
-def gen_random(rng):
+def gen_huge(rng):
+    """one sample per second for a day: more than 2**16 elements (and, in half of the cases, more than 2**16 queries)"""
+    n = int(rng.integers(66000, 90001))
+    x = np.cumsum(rng.uniform(0.5, 1.5, n)) + float(rng.normal(0, 100))
+    k = int(rng.integers(66000, 70000)) if rng.integers(0, 2) else int(rng.integers(20, 200))
+    picks = np.sort(rng.integers(0, n, k))
+    qs = x[picks] + rng.choice([0.0, 0.2, -0.2, 0.45], k)
+    qs[0], qs[-1] = min(qs[0], x[0] - 1.0), max(qs[-1], x[-1] + 1.0)
+    return x, np.sort(qs)
+
+
+def gen_random(rng, huge=False):
+    if huge:
+        return gen_huge(rng)
     n = int(rng.integers(1, 41))
     style = int(rng.integers(0, 6))
     if rng.integers(0, 40) == 0:
@@ -254,8 +268,10 @@ def gen_random(rng):
 
 def run_random_case(ctx, sau, kind, idx):
     rng = ctx.rng(kind, idx)
-    x, qs = gen_random(rng)
+    x, qs = gen_random(rng, huge=kind == "huge")
     strategy, fill = COMBOS[int(rng.integers(0, 5))]
+    if kind == "huge":
+        strategy, fill = COMBOS[idx % 5]
     via = bool(rng.integers(0, 2))
     cont = int(rng.integers(0, 3))
     xx = x if cont != 1 else [v.item() for v in x]
@@ -286,7 +302,7 @@ def run(ctx, spec):
         run_exhaustive(ctx, sau, spec)
     else:
         for idx in range(spec["start"], spec["start"] + spec["count"]):
-            run_random_case(ctx, sau, "random", idx)
+            run_random_case(ctx, sau, spec["kind"], idx)
     inst.uninstall()
 
 
